@@ -27,6 +27,24 @@ type Frame struct {
 	visits map[*ssa.BasicBlock]int
 	entry  map[string]Val // snapshot of parameters at entry (for old_x)
 	cut    bool           // frame is a top-level function under contract (loops may be cut)
+	defers    []*deferred
+	deferArgs []Val
+	deferRecv Val
+	deferRet  bool
+}
+
+type deferred struct {
+	cc   *ssa.CallCommon
+	args []Val
+	recv Val
+}
+
+// TraceEv is one effectful call to code outside the verified functions (an interface method of unknown
+// implementation or a stubbed dependency), recorded in order: the ghost `$trace` of DESIGN 2.5.
+type TraceEv struct {
+	Name    string
+	Args    []Val
+	Results []Val
 }
 
 type State struct {
@@ -46,6 +64,7 @@ type State struct {
 	done   bool
 	dead   bool
 	epoch  int
+	trace  []TraceEv
 	wt     map[string]bool // references whose well-typedness fact is already on the path
 	spec   int // >0: evaluating specification code (no obligations, calls merged)
 	quant  int // >0: inside quantifier body, do not name terms
@@ -93,6 +112,7 @@ func (s *State) clone() *State {
 			n.wt[k] = true
 		}
 	}
+	n.trace = append([]TraceEv(nil), s.trace...)
 	n.pc = append([]Term(nil), s.pc...)
 	n.pcB = append([]bool(nil), s.pcB...)
 	n.defs = append([]string(nil), s.defs...)
@@ -169,6 +189,18 @@ func (e *Engine) name(s *State, t Term) Term {
 		r.Base, r.Off = t.Base, t.Off
 	}
 	return r
+}
+
+// axiom attaches a defining (quantified) fact to a freshly declared constant: it travels with the declaration,
+// so a VC contains it only when the constant is in the cone of influence of the goal or of the path list.
+func (e *Engine) axiom(s *State, c Term, ax Term) {
+	for i := len(s.defs) - 1; i >= 0; i-- {
+		if strings.HasPrefix(s.defs[i], "(declare-const "+c.S+" ") {
+			s.defs[i] += " (assert " + ax.S + ")"
+			return
+		}
+	}
+	e.assume(s, ax)
 }
 
 func (e *Engine) assume(s *State, t Term) {
@@ -549,7 +581,7 @@ func (e *Engine) load(s *State, p PtrV, t types.Type) Val {
 	case "hcell":
 		if _, isI := p.Elem.Underlying().(*types.Interface); isI {
 			if p.Ref.C != nil && p.Ref.C.Sign() < 0 {
-				return IfaceV{IsNil: boolT(false)} // package-level error value (assumed initialised, never reassigned)
+				return IfaceV{IsNil: boolT(false), V: p.Ref} // package-level error value (assumed initialised, never reassigned): its identity is the variable's
 			}
 			return IfaceV{IsNil: e.name(s, sel(e.heapArr(s, "C_iface_isnil", refArrSort("Bool")), p.Ref, "Bool"))}
 		}
@@ -1280,14 +1312,11 @@ func (e *Engine) sliceWF(s *State, v SliceV) {
 	e.assume(s, or(refPos(v.Ref), eq(v.Cap, intT(0))))
 }
 
-// script renders definitions (cone of influence of the path list and goal) and the path assertions.
-func (e *Engine) script(s *State, cond Term) string {
-	var b strings.Builder
-	b.WriteString(prelude)
-	// cone of influence: only definitions/declarations reachable from the asserted terms
+// coneDefs returns, in declaration order, the definitions/declarations reachable from the given texts.
+func coneDefs(defs []string, roots []string) []string {
 	defLine := map[string]string{}
 	var order []string
-	for _, d := range s.defs {
+	for _, d := range defs {
 		fs := strings.Fields(d)
 		if len(fs) < 2 {
 			continue
@@ -1295,6 +1324,8 @@ func (e *Engine) script(s *State, cond Term) string {
 		if _, dup := defLine[fs[1]]; !dup {
 			defLine[fs[1]] = d
 			order = append(order, fs[1])
+		} else if len(d) > len(defLine[fs[1]]) {
+			defLine[fs[1]] = d // the same declaration, later extended by its defining axiom
 		}
 	}
 	need := map[string]bool{}
@@ -1307,15 +1338,29 @@ func (e *Engine) script(s *State, cond Term) string {
 			}
 		}
 	}
-	visit(cond.S)
-	for _, p := range s.pc {
-		visit(p.S)
+	for _, r := range roots {
+		visit(r)
 	}
+	var out []string
 	for _, nm := range order {
 		if need[nm] {
-			b.WriteString(defLine[nm])
-			b.WriteByte('\n')
+			out = append(out, defLine[nm])
 		}
+	}
+	return out
+}
+
+// script renders definitions (cone of influence of the path list and goal) and the path assertions.
+func (e *Engine) script(s *State, cond Term) string {
+	var b strings.Builder
+	b.WriteString(prelude)
+	roots := []string{cond.S}
+	for _, p := range s.pc {
+		roots = append(roots, p.S)
+	}
+	for _, d := range coneDefs(s.defs, roots) {
+		b.WriteString(d)
+		b.WriteByte('\n')
 	}
 	for _, p := range s.pc {
 		b.WriteString("(assert " + p.S + ")\n")
